@@ -36,6 +36,17 @@ func (checker *TimestampChecker) IsUpToDate(t *ast.Task) (bool, error) {
 	if err != nil {
 		return false, nil
 	}
+	// Globs silently drops patterns without matches. A generates entry that
+	// matches nothing means the task's output is missing.
+	generatesMissing := false
+	for _, g := range t.Generates {
+		if g.Negate {
+			continue
+		}
+		if matches, err := glob(t.Dir, g.Glob); err != nil || len(matches) == 0 {
+			generatesMissing = true
+		}
+	}
 
 	timestampFile := checker.timestampFilePath(t)
 
@@ -84,7 +95,7 @@ func (checker *TimestampChecker) IsUpToDate(t *ast.Task) (bool, error) {
 		}
 	}
 
-	return timestampFileExists && !shouldUpdate, nil
+	return timestampFileExists && !generatesMissing && !shouldUpdate, nil
 }
 
 func (checker *TimestampChecker) Kind() string {
